@@ -16,6 +16,7 @@ pub mod c10;
 pub mod c11;
 pub mod c12;
 pub mod c13;
+pub mod c14;
 pub mod c15;
 pub mod c16;
 pub mod c17;
@@ -23,7 +24,7 @@ pub mod c18;
 pub mod c19;
 pub mod c20;
 
-pub const ALL: &[&str] = &["C01", "C02", "C03", "C04", "C05", "C06", "C07", "C08", "C09", "C10", "C11", "C12", "C13", "C15", "C16", "C17", "C18", "C19", "C20"];
+pub const ALL: &[&str] = &["C01", "C02", "C03", "C04", "C05", "C06", "C07", "C08", "C09", "C10", "C11", "C12", "C13", "C14", "C15", "C16", "C17", "C18", "C19", "C20"];
 
 pub fn subchecks(prop: &str, tier: Tier) -> Vec<SubCheck> {
     match prop {
@@ -40,6 +41,7 @@ pub fn subchecks(prop: &str, tier: Tier) -> Vec<SubCheck> {
         "C11" => c11::subchecks(tier),
         "C12" => c12::subchecks(tier),
         "C13" => c13::subchecks(tier),
+        "C14" => c14::subchecks(tier),
         "C15" => c15::subchecks(tier),
         "C16" => c16::subchecks(tier),
         "C17" => c17::subchecks(tier),
@@ -69,7 +71,7 @@ pub fn level(prop: &str) -> &'static str {
 /// run the same sub-checks also in the assertion-enabled optimised build?
 pub fn wants_relda(prop: &str, tier: Tier) -> bool {
     match tier {
-        Tier::Thorough => true,
+        Tier::Thorough => prop != "C14",
         Tier::Quick => matches!(prop, "C11" | "C04"),
     }
 }
